@@ -299,3 +299,439 @@ def site_time_rule(g):
             g.ob(name, not bad, clause + f"   [z3, {npaths} path(s)]", bad)
     except Stuck as e:
         g.ob(name, False, clause, f"the evaluator cannot follow {e}", verdict="does-not-attach")
+
+
+# =====================================================================================================================
+# variational._rescale_factors: from the real statements to the (formerly only assumed) G1 contract, by z3.
+#
+# Each statement of the real body is given its numpy meaning (A-NUMPY, broadcasting of an (E,) gather over the last
+# axis):   factors.F[:, D] *= factors.scale[IDX, np.newaxis]   ==   forall r, k: F'[r, D, k] = F[r, D, k] * scale[IDX[r]]
+# (IDX = factors._x gathers, IDX = `:` is the identity), rows with another second index unchanged;
+#          factors.scale[:] = c                                 ==   forall n: scale'[n] = c.
+# The statements are composed IN THE ORDER OF THE SOURCE (a body that resets scale first fails), and the ensures
+# clauses of contracts/variational.py for `_rescale_factors` (the element-wise ones; the ghost-sum clause S is their
+# linear combination and stays A-MATH) are discharged against the composed state.
+def rescale_factors_contract_from_body(g):
+    name = "variational._rescale_factors"
+    try:
+        fn = extract.get_function(name)
+    except LookupError as e:
+        g.ob(f"{name}:attach", False, "function exists", str(e), verdict="does-not-attach")
+        return
+    I, R = z3.IntSort(), z3.RealSort()
+    A3 = z3.ArraySort(I, z3.ArraySort(I, z3.ArraySort(I, R)))
+    old = {"edge": z3.Const("edge0", A3), "block": z3.Const("block0", A3), "node": z3.Const("node0", A3),
+           "scale": z3.Const("scale0", z3.ArraySort(I, R))}
+    idx = {n: z3.Const(n, z3.ArraySort(I, I)) for n in ("_p", "_c", "_j", "_k")}
+    DIRS = {"ROOTWARD": 0, "LEAFWARD": 1, "MIXPRIOR": 0, "CONSTRNT": 1}
+    try:
+        consts = extract.module_constants("variational") if hasattr(extract, "module_constants") else {}
+    except Exception:  # noqa: BLE001
+        consts = {}
+    for k in list(DIRS):
+        if k in consts:
+            DIRS[k] = int(consts[k])
+    cur = dict(old)
+    defs = []
+    nstate = [0]
+
+    def fresh(field, sort):
+        nstate[0] += 1
+        return z3.Const(f"{field}_{nstate[0]}", sort)
+    r, k, d, n = z3.Ints("r k d n")
+    body = [s for s in fn.node.body if not (isinstance(s, ast.Expr) and isinstance(s.value, ast.Constant))]
+    why = None
+    for s in body:
+        t = ast.unparse(s)
+        if isinstance(s, ast.AugAssign) and isinstance(s.op, ast.Mult) and isinstance(s.target, ast.Subscript) \
+                and ast.unparse(s.target.value) in ("factors.edge", "factors.block", "factors.node") \
+                and isinstance(s.target.slice, ast.Tuple) and len(s.target.slice.elts) == 2 \
+                and ast.unparse(s.target.slice.elts[0]) == ":" and ast.unparse(s.target.slice.elts[1]) in DIRS \
+                and isinstance(s.value, ast.Subscript) and ast.unparse(s.value.value) == "factors.scale" \
+                and isinstance(s.value.slice, ast.Tuple) and len(s.value.slice.elts) == 2 \
+                and ast.unparse(s.value.slice.elts[1]) == "np.newaxis":
+            field = ast.unparse(s.target.value).split(".")[1]
+            D = DIRS[ast.unparse(s.target.slice.elts[1])]
+            gi = ast.unparse(s.value.slice.elts[0])
+            if gi == ":":
+                row = r
+            elif gi.startswith("factors.") and gi.split(".")[1] in idx:
+                row = idx[gi.split(".")[1]][r]
+            else:
+                why = f"gather index `{gi}` in `{t}`"
+                break
+            new = fresh(field, A3)
+            defs.append(z3.ForAll([r, d, k], new[r][d][k] == z3.If(d == D, cur[field][r][d][k] * cur["scale"][row], cur[field][r][d][k])))
+            cur[field] = new
+        elif isinstance(s, ast.Assign) and ast.unparse(s.targets[0]) == "factors.scale[:]" and isinstance(s.value, ast.Constant) \
+                and isinstance(s.value.value, (int, float)):
+            new = fresh("scale", z3.ArraySort(I, R))
+            defs.append(z3.ForAll([n], new[n] == z3.RealVal(repr(s.value.value))))
+            cur["scale"] = new
+        else:
+            why = f"statement `{t}`"
+            break
+    if why:
+        g.ob(f"{name}:contract-follows-from-the-real-statements", False, "every statement is an in-place broadcast scaling or scale[:] = c",
+             f"the statement semantics does not cover {why}", verdict="does-not-attach")
+        return
+    g.ctx.add_assumption("A-NUMPY (broadcast): `F[:, D] *= s[IDX, np.newaxis]` multiplies F[r, D, k] by s[IDX[r]] for every r, k and "
+                         "writes nothing else; `s[:] = c` sets every element (used to derive the _rescale_factors contract from its body)")
+    goals = {
+        "scale-is-one-afterwards": cur["scale"][n] == 1,
+        "edge-messages-multiplied-by-the-scale-of-their-node": z3.And(
+            cur["edge"][r][0][k] == old["edge"][r][0][k] * old["scale"][idx["_p"][r]],
+            cur["edge"][r][1][k] == old["edge"][r][1][k] * old["scale"][idx["_c"][r]]),
+        "block-messages-multiplied-by-the-scale-of-their-node": z3.And(
+            cur["block"][r][0][k] == old["block"][r][0][k] * old["scale"][idx["_j"][r]],
+            cur["block"][r][1][k] == old["block"][r][1][k] * old["scale"][idx["_k"][r]]),
+        "node-factors-multiplied-by-the-scale-of-their-node": z3.And(
+            cur["node"][r][0][k] == old["node"][r][0][k] * old["scale"][r],
+            cur["node"][r][1][k] == old["node"][r][1][k] * old["scale"][r]),
+        "no-other-direction-written": z3.Implies(z3.And(d != 0, d != 1), z3.And(
+            cur["edge"][r][d][k] == old["edge"][r][d][k], cur["block"][r][d][k] == old["block"][r][d][k],
+            cur["node"][r][d][k] == old["node"][r][d][k])),
+    }
+    for gname, goal in goals.items():
+        s = z3.Solver()
+        s.set("timeout", 30000)
+        s.add(*defs)
+        s.add(z3.Not(goal))
+        res = s.check()
+        clause = f"statements of the real body (numpy meaning, source order) |- contract clause `{gname}` for all r, k   [z3]"
+        if res == z3.unsat:
+            g.ob(f"{name}:contract-from-body:{gname}", True, clause)
+        elif res == z3.sat:
+            g.ob(f"{name}:contract-from-body:{gname}", False, clause, f"counter-model: {str(s.model())[:300]}")
+        else:
+            g.ob(f"{name}:contract-from-body:{gname}", False, clause, "z3 returned unknown", verdict="unknown")
+
+
+# =====================================================================================================================
+# C30: unary-node detection.  Data-flow contracts of the wrappers (tracer) + statement-level contracts of the kernel.
+def _norm(s):
+    return "".join(s.split())
+
+
+def _z3_bool(e, atoms):
+    """Boolean structure of a guard over integer atoms (names / subscripts become z3 Int constants, `x[..]` under `not` or
+    as a bare operand becomes a Bool constant).  Raises Stuck on anything else."""
+    def iv(x):
+        if isinstance(x, ast.Constant) and isinstance(x.value, int) and not isinstance(x.value, bool):
+            return z3.IntVal(x.value)
+        if isinstance(x, (ast.Name, ast.Subscript, ast.Attribute)):
+            return atoms.setdefault(("i", _norm(ast.unparse(x))), z3.Int("i_" + _norm(ast.unparse(x))))
+        if isinstance(x, ast.BinOp) and isinstance(x.op, (ast.Add, ast.Sub)):
+            return iv(x.left) + iv(x.right) if isinstance(x.op, ast.Add) else iv(x.left) - iv(x.right)
+        raise Stuck(ast.unparse(x))
+    if isinstance(e, ast.BoolOp):
+        cs = [_z3_bool(v, atoms) for v in e.values]
+        return z3.Or(*cs) if isinstance(e.op, ast.Or) else z3.And(*cs)
+    if isinstance(e, ast.UnaryOp) and isinstance(e.op, ast.Not):
+        return z3.Not(_z3_bool(e.operand, atoms))
+    if isinstance(e, ast.Compare):
+        parts, left = [], e.left
+        for op, right in zip(e.ops, e.comparators):
+            a, b = iv(left), iv(right)
+            r = {ast.Eq: a == b, ast.NotEq: a != b, ast.Lt: a < b, ast.LtE: a <= b, ast.Gt: a > b, ast.GtE: a >= b}.get(type(op))
+            if r is None:
+                raise Stuck(ast.unparse(e))
+            parts.append(r)
+            left = right
+        return z3.And(*parts)
+    if isinstance(e, (ast.Name, ast.Subscript)):
+        return atoms.setdefault(("b", _norm(ast.unparse(e))), z3.Bool("b_" + _norm(ast.unparse(e))))
+    raise Stuck(ast.unparse(e))
+
+
+def _equiv(g, obname, clause, test_node, want_src, shape_ok=True, shape_why=""):
+    """obligation: the real test is logically equivalent to the contracted one (z3); a shape mismatch around it is undecided."""
+    if not shape_ok:
+        g.ob(obname, False, clause, shape_why, verdict="does-not-attach")
+        return
+    atoms = {}
+    try:
+        real = _z3_bool(test_node, atoms)
+        want = _z3_bool(ast.parse(want_src, mode="eval").body, atoms)
+    except Stuck as e:
+        g.ob(obname, False, clause, f"the guard evaluator cannot follow `{e}`", verdict="does-not-attach")
+        return
+    s = z3.Solver()
+    s.add(real != want)
+    r = s.check()
+    if r == z3.unsat:
+        g.ob(obname, True, clause + f"   [z3: real test `{ast.unparse(test_node)}` <=> `{want_src}`]")
+    elif r == z3.sat:
+        g.ob(obname, False, clause, f"the real test `{ast.unparse(test_node)}` differs from `{want_src}` at {s.model()}")
+    else:
+        g.ob(obname, False, clause, "z3 unknown", verdict="unknown")
+
+
+def unary_detection(g):
+    from .flow import text_of
+    # ---- util.contains_unary_nodes: mask and tables reach the kernel, the kernel's verdict is returned
+    name = "util.contains_unary_nodes"
+    paths = g.trace(name)
+    if paths is not None:
+        def pred(p):
+            cs = [ev for ev in p.events if ev["kind"] == "call" and ev["func"] == "_contains_unary_nodes"]
+            if len(cs) != 1:
+                return f"{len(cs)} kernel calls"
+            a = [text_of(x) for x in cs[0]["args"]]
+            want = ["ts.edges_parent", "ts.edges_left", "ts.edges_right", "ts.indexes_edge_insertion_order",
+                    "ts.indexes_edge_removal_order", "ts.sequence_length", "ts.num_nodes"]
+            if a[1:] != want or cs[0]["kwargs"]:
+                return f"kernel arguments are {a[1:]}"
+            fulls = [ev for ev in p.events if ev["kind"] == "call" and ev["func"] == "np.full"
+                     and [text_of(x) for x in ev["args"]] == ["ts.num_nodes", "False"]]
+            if len(fulls) != 1 or not a[0].startswith("np.full("):
+                return f"the mask handed to the kernel is {a[0]}, not an all-False array with one entry per node"
+            st = [(ev["target"], text_of(ev["index"]) if not isinstance(ev["index"], str) else ev["index"], text_of(ev["value"]))
+                  for ev in p.events if ev["kind"] == "store-item"]
+            skip = ("skip_samples", True) in p.conds
+            if skip:
+                ok = len(st) == 1 and st[0][0] == a[0] and st[0][2] == "True" and st[0][1].startswith("list(") and any(
+                    ev["kind"] == "call" and ev["func"] == "list" and [text_of(x) for x in ev["args"]][0].startswith("ts.samples(")
+                    for ev in p.events)
+                if not ok:
+                    return f"with skip_samples the mask stores are {st}, expected exactly mask[list(ts.samples())] = True"
+            elif st:
+                return f"without skip_samples the mask is written: {st}"
+            rets = [text_of(ev["value"]) for ev in p.events if ev["kind"] == "return"]
+            if len(rets) != 1 or not rets[0].startswith("_contains_unary_nodes("):
+                return f"returns {rets}, not the kernel's verdict"
+            return None
+        g.forall_paths(f"{name}:exempts-exactly-the-samples-iff-skip_samples-and-returns-kernel-verdict", paths, pred,
+                       "mask = all False, set True exactly at ts.samples() iff skip_samples; kernel gets (mask, edges_parent, edges_left, "
+                       "edges_right, insertion order, removal order, sequence_length, num_nodes); its result is returned")
+    # ---- variational _check_valid_inputs: reject iff (not allow_unary) and a NON-SAMPLE node is unary
+    name = "variational.ExpectationPropagation._check_valid_inputs"
+    paths = g.trace(name)
+    if paths is not None:
+        def pred2(p):
+            unary_raise = [ev for ev in p.events if ev["kind"] == "raise" and "unary" in ev["text"]]
+            calls = [ev for ev in p.events if ev["kind"] == "call" and ev["func"] == "contains_unary_nodes"]
+            for c in calls:
+                if [text_of(x) for x in c["args"]] != ["ts"] or c["kwargs"]:
+                    return f"contains_unary_nodes called as {c['text']} (the default skip_samples=True is the variational rule)"
+            conds = [c for c in p.conds if "unary" in c[0]]
+            if any(_norm(c[0]) != _norm("not allow_unary and contains_unary_nodes(ts)") for c in conds):
+                return f"the guard is `{conds}`"
+            if unary_raise and not (conds and conds[-1][1] is True and unary_raise[0]["exc"] == "ValueError"):
+                return "unary ValueError raised without the guard being true"
+            if conds and conds[-1][1] is True and not unary_raise:
+                return "guard true but no ValueError"
+            return None
+        g.forall_paths(f"{name}:rejects-iff-not-allow_unary-and-detector-true", paths, pred2,
+                       "ValueError('... unary ...') <=> not allow_unary and contains_unary_nodes(ts) [skip_samples default]")
+        n_guard = sum(1 for p in paths if any("unary" in c[0] for c in p.conds))
+        g.ob(f"{name}:guard-reached", n_guard >= 2, "both outcomes of the unary guard are enumerated (vacuity guard)",
+             None if n_guard >= 2 else f"{n_guard} path(s) reach the guard", verdict=None if n_guard >= 2 else "unknown")
+    # ---- the kernel: statement-level contracts on the real AST
+    name = "util._contains_unary_nodes"
+    try:
+        fn = extract.get_function(name)
+    except LookupError as e:
+        g.ob(f"{name}:attach", False, "function exists", str(e), verdict="does-not-attach")
+        return
+    g.ctx.functions.append({**fn.describe(), "mode": "G3 statement-level contracts (the kernel uses a Python set: outside G1's subset)"})
+    g.ctx.add_assumption("C30: the sweep structure of _contains_unary_nodes (edges leave at position_remove == left, enter at "
+                         "position_insert == left, `left` advances to the next breakpoint) is pinned statement by statement, but that "
+                         "these statements visit every local tree is an argument over tskit's insertion / removal orders (A-TS-API), "
+                         "not machine-checked; end to end that part is bounded only (rt/bounded_C30.py)")
+    writes = []
+    for n in ast.walk(fn.node):
+        if isinstance(n, (ast.Assign, ast.AugAssign)):
+            for t in (n.targets if isinstance(n, ast.Assign) else [n.target]):
+                if ast.unparse(t).startswith("nodes_children"):
+                    writes.append(_norm(ast.unparse(n)))
+    ok_w = sorted(writes) == sorted([_norm("nodes_children = np.zeros(num_nodes, dtype=np.int32)"), _norm("nodes_children[p] -= 1"),
+                                     _norm("nodes_children[p] += 1")])
+    g.ob(f"{name}:child-counts-start-at-zero-and-change-by-one-per-edge", ok_w,
+         "nodes_children is created all zero and written only by `nodes_children[p] -= 1` / `nodes_children[p] += 1`",
+         None if ok_w else f"writes: {writes}", verdict=None if ok_w else "does-not-attach")
+    whiles = [n for n in ast.walk(fn.node) if isinstance(n, ast.While)]
+    inner = {("out" if "position_remove[b] == left" in ast.unparse(w.test) else "in" if "position_insert[a] == left" in ast.unparse(w.test) else None): w
+             for w in whiles}
+    ok_io, why = True, ""
+    for kind, idx, ctr, delta in (("out", "indexes_remove[b]", "b", "-="), ("in", "indexes_insert[a]", "a", "+=")):
+        w = inner.get(kind)
+        if w is None:
+            ok_io, why = False, f"no `{kind}` loop found"
+            break
+        body = [_norm(ast.unparse(s)) for s in w.body]
+        want = [_norm(f"e = {idx}"), _norm("p = edges_parent[e]"), _norm(f"nodes_children[p] {delta} 1"), _norm("check.add(p)"), _norm(f"{ctr} += 1")]
+        if body != want:
+            ok_io, why = False, f"the edges-{kind} loop body is {body}"
+            break
+        guard = _norm(ast.unparse(w.test))
+        if guard != _norm(f"{ctr} < num_edges and position_{'remove' if kind == 'out' else 'insert'}[{ctr}] == left"):
+            ok_io, why = False, f"the edges-{kind} loop guard is {guard}"
+            break
+    g.ob(f"{name}:every-parent-whose-count-changes-is-rechecked", ok_io,
+         "edges out: p = edges_parent[indexes_remove[b]], count[p] -= 1, check.add(p); edges in: p = edges_parent[indexes_insert[a]], "
+         "count[p] += 1, check.add(p); nothing else in either loop", why, verdict=None if ok_io else "does-not-attach")
+    outer = [w for w in whiles if any(x in ast.walk(w) and x is not w for x in inner.values() if x is not None)]
+    tail = [_norm(ast.unparse(s)) for s in outer[0].body[-4:]] if len(outer) == 1 else []
+    shape = (len(outer) == 1
+             and tail == [_norm("right = sequence_length"), _norm("if b < num_edges:\n    right = min(right, position_remove[b])"),
+                          _norm("if a < num_edges:\n    right = min(right, position_insert[a])"), _norm("left = right")]
+             and not [n for n in ast.walk(outer[0]) if isinstance(n, (ast.Break, ast.Continue))])
+    _equiv(g, f"{name}:sweep-runs-until-every-edge-has-entered-and-left",
+           "outer loop guard <=> a < num_edges or b < num_edges (exit => every insertion and removal was processed); `left` advances "
+           "to min(sequence_length, next removal, next insertion); no break / continue",
+           outer[0].test if len(outer) == 1 else None, "a < num_edges or b < num_edges", shape,
+           f"outer loops: {[ast.unparse(w.test) for w in outer]}; advance statements: {tail}")
+    rets = [(ast.unparse(n.value) if n.value else "None") for n in ast.walk(fn.node) if isinstance(n, ast.Return)]
+    true_rets = [n for n in ast.walk(fn.node) if isinstance(n, ast.If) and any(isinstance(s, ast.Return) for s in n.body)]
+    loops_p = [n for n in ast.walk(fn.node) if isinstance(n, ast.For) and ast.unparse(n.iter) == "check" and ast.unparse(n.target) == "p"
+               and len(n.body) == 1 and n.body[0] in true_rets]
+    shape = (sorted(rets) == ["False", "True"] and len(true_rets) == 1 and not true_rets[0].orelse and len(true_rets[0].body) == 1
+             and isinstance(fn.node.body[-1], ast.Return) and ast.unparse(fn.node.body[-1].value) == "False" and len(loops_p) == 1)
+    _equiv(g, f"{name}:true-iff-an-unmasked-rechecked-node-has-exactly-one-child",
+           "`return True` occurs only as  for p in check: if <test>: return True  with <test> <=> not nodes_mask[p] and nodes_children[p] == 1; "
+           "the function otherwise ends with `return False`",
+           true_rets[0].test if len(true_rets) == 1 else None, "not nodes_mask[p] and nodes_children[p] == 1", shape,
+           f"returns: {rets}; guarded returns: {[ast.unparse(t.test) for t in true_rets]}")
+    # ---- discrete-time side: prior.has_locally_unary_nodes and its call site (every node, samples included)
+    name = "prior.has_locally_unary_nodes"
+    try:
+        fn = extract.get_function(name)
+    except LookupError as e:
+        g.ob(f"{name}:attach", False, "function exists", str(e), verdict="does-not-attach")
+        return
+    g.ctx.functions.append({**fn.describe(), "mode": "G3 statement-level contract"})
+    src = _norm(ast.unparse(ast.Module(body=[s for s in fn.node.body if not (isinstance(s, ast.Expr) and isinstance(s.value, ast.Constant))], type_ignores=[])))
+    want = _norm("for tree, ediff in zip(ts.trees(), ts.edge_diffs()):\n"
+                 "    changed = {e.parent for edges in (ediff.edges_out, ediff.edges_in) for e in edges}\n"
+                 "    if (tree.num_children_array[list(changed)] == 1).any():\n        return True\nreturn False")
+    ok = src == want
+    g.ob(f"{name}:true-iff-a-parent-of-a-changed-edge-has-one-child-in-that-tree", ok,
+         "per local tree: any(num_children[p] == 1 for p in parents of edges entering or leaving at this tree) — no sample exemption; "
+         "a node's child count only changes when one of its edges enters or leaves (A-TS-API), so this covers every node of every tree",
+         None if ok else "the body differs from the contracted form (undecided, not a violation)", verdict=None if ok else "does-not-attach")
+    name = "prior.SpansBySamples.__init__"
+    paths = g.trace(name)
+    if paths is not None:
+        def pred3(p):
+            conds = [c for c in p.conds if "unary" in c[0]]
+            unary_raise = [ev for ev in p.events if ev["kind"] == "raise" and "unary" in ev["text"]]
+            allow = [c for c in p.conds if _norm(c[0]) == _norm("not allow_unary")]
+            if unary_raise:
+                if not (allow and allow[-1][1] is True and conds and _norm(conds[-1][0]) == _norm("has_locally_unary_nodes(self.ts)") and conds[-1][1] is True):
+                    return f"unary ValueError under conditions {p.conds}"
+            elif allow and allow[-1][1] is True and conds and conds[-1][1] is True:
+                return "detector true and allow_unary false, but no ValueError"
+            if allow and allow[-1][1] is True and not conds and p.status != "raise":
+                return "allow_unary false but the detector is not consulted"
+            return None
+        g.forall_paths(f"{name}:rejects-iff-not-allow_unary-and-detector-true", paths, pred3,
+                       "ValueError('... unary nodes ...') <=> not allow_unary and has_locally_unary_nodes(self.ts)")
+
+
+# =====================================================================================================================
+# C14: how ConditionalCoalescentTimes.add assembles a table from the G1-verified pieces, and that the exact/approximate
+# choice is a function of the call's arguments only (added after the second C14 seed: the flag survived between calls).
+def prior_table_assembly(g):
+    import re
+    from .flow import text_of
+    name = "prior.ConditionalCoalescentTimes.add"
+    paths = g.trace(name)
+    if paths is None:
+        return
+    work = [p for p in paths if ("total_tips in self.prior_store", True) not in p.conds]
+
+    def T(x):
+        return x if isinstance(x, str) else text_of(x)
+
+    def strip(s):
+        return re.sub(r"#\d+", "", s)
+
+    def choice(p):
+        st = [T(ev["value"]) for ev in p.events if ev["kind"] == "store" and ev["target"] == "self.approximate"]
+        explicit = ("approximate is not None", True) in p.conds
+        big = [c[1] for c in p.conds if _norm(c[0]) == _norm("total_tips >= DEFAULT_APPROX_PRIOR_SIZE")]
+        want = "approximate" if explicit else (str(big[0]) if big else None)
+        if want is None:
+            return "approximate is None but the size test total_tips >= DEFAULT_APPROX_PRIOR_SIZE was not taken"
+        if st != [want]:
+            return (f"on this call self.approximate is {'not assigned (the value left by an EARLIER call is used)' if not st else 'assigned ' + str(st)}"
+                    f"; the arguments determine it to be {want}")
+        return None
+    g.forall_paths(f"{name}:exact-or-approximate-is-decided-by-this-call's-arguments-only", work, choice,
+                   "every call that builds a table first sets self.approximate := approximate if given, else (total_tips >= "
+                   "DEFAULT_APPROX_PRIOR_SIZE); no path reads a value left by an earlier call", only=lambda p: p.status != "raise" or True)
+
+    def rows(p):
+        if p.status == "raise":
+            return None
+        calls = [ev for ev in p.events if ev["kind"] == "call"]
+        varc = [ev for ev in calls if ev["func"] in ("self.tau_var_exact", "self.tau_var_lookup")]
+        if len(varc) != 1:
+            return f"{len(varc)} variance calls"
+        approx_true = ("self.approximate", True) in p.conds
+        st = [T(ev["value"]) for ev in p.events if ev["kind"] == "store" and ev["target"] == "self.approximate"]
+        if st in (["False"], ["True"]) and (st == ["True"]) != approx_true:
+            return None  # infeasible combination enumerated by the tracer (constant flag, contrary branch)
+        if (varc[0]["func"] == "self.tau_var_lookup") != approx_true:
+            return f"variances come from {varc[0]['func']} although self.approximate is {approx_true}"
+        va = [strip(T(x)) for x in varc[0]["args"]]
+        if va != ["total_tips", "np.arange(...)"]:
+            return f"variance call arguments {va}"
+        ar = [ev for ev in calls if ev["func"] == "np.arange"]
+        if len(ar) != 1 or [_norm(T(x)) for x in ar[0]["args"]] != ["2", _norm("(total_tips Add 1)")]:
+            return f"descendant counts are {[ev['text'] for ev in ar]}, not np.arange(2, total_tips + 1)"
+        z = [ev for ev in calls if ev["func"] == "zip"]
+        if len(z) != 1 or [strip(T(x)) for x in z[0]["args"]] != [varc[0]["func"] + "(...)", "np.arange(...)"]:
+            return f"the row loop runs over {[ev['text'] for ev in z]}"
+        inl = [ev for ev in p.events if ev.get("in_loop")]
+        te = [ev for ev in inl if ev["kind"] == "call" and ev["func"] == "self.tau_expect"]
+        fa = [ev for ev in inl if ev["kind"] == "call" and ev["func"] == "self.func_approx"]
+        pp = [ev for ev in inl if ev["kind"] == "call" and ev["func"] == "PriorParams"]
+        si = [ev for ev in inl if ev["kind"] == "store-item"]
+        if not (len(te) == len(fa) == len(pp) == len(si) == 1):
+            return f"row body has {len(te)} tau_expect, {len(fa)} func_approx, {len(pp)} PriorParams, {len(si)} stores"
+        if [strip(T(x)) for x in te[0]["args"]] != ["elem(zip(...))[1]", "total_tips"]:
+            return f"mean is {te[0]['text']} with {[T(x) for x in te[0]['args']]}"
+        if [strip(T(x)) for x in fa[0]["args"]] != ["self.tau_expect(...)", "elem(zip(...))[0]"]:
+            return f"parameters are {fa[0]['text']} with {[T(x) for x in fa[0]['args']]}"
+        kw = {k: strip(T(v)) for k, v in pp[0]["kwargs"].items()}
+        if kw != {"alpha": "self.func_approx(...)[0]", "beta": "self.func_approx(...)[1]", "mean": "self.tau_expect(...)", "var": "elem(zip(...))[0]"} or pp[0]["args"]:
+            return f"row is PriorParams({kw})"
+        if strip(T(si[0]["index"])) != "elem(zip(...))[1]" or not strip(T(si[0]["value"])).startswith("PriorParams(") or not strip(si[0]["target"]).startswith("np.full("):
+            return f"row stored as {si[0]['target']}[{T(si[0]['index'])}] = {T(si[0]['value'])}"
+        fin = [ev for ev in p.events if ev["kind"] == "store-item" and ev["target"] == "self.prior_store"]
+        if len(fin) != 1 or T(fin[0]["index"]) != "total_tips" or not strip(T(fin[0]["value"])).startswith("np.full("):
+            return f"table stored as {[(ev['target'], T(ev['index'])) for ev in fin]}"
+        return None
+    g.forall_paths(f"{name}:row-k-is-(func_approx(tau_expect(k,n),var_k),tau_expect(k,n),var_k)", work, rows,
+                   "for k in 2..n: table[k] = PriorParams(alpha, beta = func_approx(tau_expect(k, n), var_k), mean = tau_expect(k, n), "
+                   "var = var_k), var = tau_var_exact(n, 2..n) unless self.approximate; the table is stored under prior_store[n]",
+                   only=lambda p: p.status != "raise")
+    # func_approx is the transform named by prior_distr; tau_var_exact is conditional_coalescent_variance(n)[k]
+    name2 = "prior.ConditionalCoalescentTimes.__init__"
+    paths2 = g.trace(name2)
+    if paths2 is not None:
+        def bind(p):
+            st = [T(ev["value"]) for ev in p.events if ev["kind"] == "store" and ev["target"] == "self.func_approx"]
+            ln = ("prior_distr == 'lognorm'", True) in p.conds
+            ga = ("prior_distr == 'gamma'", True) in p.conds
+            if p.status == "raise":
+                return None
+            want = ["lognorm_approx"] if ln else ["gamma_approx"] if ga else None
+            if want is None or st != want:
+                return f"func_approx bound to {st} under {[c for c in p.conds if 'prior_distr' in c[0]]}"
+            return None
+        g.forall_paths(f"{name2}:func_approx-is-the-transform-named-by-prior_distr", paths2, bind,
+                       "self.func_approx = lognorm_approx if prior_distr == 'lognorm', gamma_approx if 'gamma' (else ValueError)")
+    name3 = "prior.ConditionalCoalescentTimes.tau_var_exact"
+    paths3 = g.trace(name3)
+    if paths3 is not None:
+        def tv(p):
+            rets = [strip(T(ev["value"])) for ev in p.events if ev["kind"] == "return"]
+            cs = [ev for ev in p.events if ev["kind"] == "call" and ev["func"] == "conditional_coalescent_variance"]
+            if len(cs) != 1 or [T(x) for x in cs[0]["args"]] != ["total_tips"] or rets != ["conditional_coalescent_variance(...)[all_tips]"]:
+                return f"returns {rets}"
+            return None
+        g.forall_paths(f"{name3}:is-conditional_coalescent_variance(n)[k]", paths3, tv,
+                       "tau_var_exact(n, ks) == conditional_coalescent_variance(n)[ks]")
